@@ -158,6 +158,10 @@ class C13(Prop):
             if obs["peak"] != case["start"] or obs["bestw"] != case["width"]:
                 return (f"noiseless boxcar (start {case['start']}, width {case['width']}, n={n}) recovered at bin "
                         f"{obs['peak']} with width {obs['bestw']}")
+            want = [case["start"], case["start"] + case["width"]]
+            if obs["onpulse"] != want:
+                return (f"noiseless boxcar (start {case['start']}, width {case['width']}, n={n}): on-pulse region "
+                        f"{obs['onpulse']}, the pulse occupies the half-open range {want}")
         return None
 
     # ------------------------------------------------------------------ model
